@@ -66,6 +66,23 @@ static void s_chain(long c) { int pol = c % 4; c /= 4; int ca = c % 3; c /= 3; i
     if (pol == 0) chain<queueing, false>(ca, cb, k, viaq, P, "queueing"); else if (pol == 1) chain<rejecting, true>(ca, cb, k, viaq, P, "rejecting");
     else if (pol == 2) chain_lw<queueing_lightweight, false>(ca, cb, k, viaq, P, "queueing_lw"); else chain_lw<rejecting_lightweight, true>(ca, cb, k, viaq, P, "rejecting_lw"); }
 
+// ------------------------------------------------------------------ S1b: [queue ->] A(lightweight policy, noexcept body, limit ca) whose result nobody takes (no successor, or a
+// successor that rejects while it is busy): the body runs inside try_put, so the message must be reported as accepted exactly if its body ran
+template <class Pol> static void lwsink(int ca, int k, int viaq, int P, int succ, const char* pn) {
+    vtbb::init(P); reset_globals(); check_cancel = false; std::set<int> acc; int rej = 0; NL a("A", ca), s("S", 1);
+    { graph g; G = &g;
+      function_node<int, int, Pol> A(g, conc(ca), [&](int x) noexcept { enter(a, x, false); leave(a); return x; });
+      function_node<int, continue_msg, rejecting> S(g, serial, [&](int x) { enter(s, x); leave(s); return continue_msg(); });
+      queue_node<int> Q(g); if (viaq) make_edge(Q, A); if (succ) make_edge(A, S);
+      for (int i = 1; i <= k; i++) { bool ok = viaq ? Q.try_put(i) : A.try_put(i); if (ok) acc.insert(i); else rej++;
+          if (!viaq) { bool ran = a.cnt.count(i) && a.cnt[i] > 0; if (ok != ran && (ok || ran)) { if (ran && !ok) vf_fail("try_put of message %d into a lightweight %s function_node returned false although its body had run for it", i, pn); } }
+          put_point(); }
+      waitall(g); once(a, acc); for (auto& kv : s.cnt) if (kv.second != 1) vf_fail("the successor processed message %d %d times", kv.first, kv.second); }
+    vtbb::finish(); vf_outcome("lwsink %s ca=%d k=%d q=%d P=%d succ=%d rejected=%d A:%s", pn, ca, k, viaq, P, succ, rej, ord(a).c_str());
+}
+static void s_lwsink(long c) { int pol = c % 3; c /= 3; int ca = c % 3; c /= 3; int k = 1 + c % 3; c /= 3; int viaq = c % 2; c /= 2; int succ = c % 2; c /= 2; int P = 2 + c % 2;
+    if (pol == 0) lwsink<queueing_lightweight>(ca, k, viaq, P, succ, "queueing_lightweight"); else if (pol == 1) lwsink<rejecting_lightweight>(ca, k, viaq, P, succ, "rejecting_lightweight"); else lwsink<lightweight>(ca, k, viaq, P, succ, "lightweight"); }
+
 // ------------------------------------------------------------------ S2: buffering sender -> rejecting F (conc cf) -> sink: nothing lost, nothing twice
 static void s_buffered(long c) { int kind = c % 4; c /= 4; int cf = 1 + c % 2; c /= 2; int k = 1 + c % 4; c /= 4; int P = 2 + c % 2; c /= 2; int late = c % 2;
     vtbb::init(P); reset_globals(); std::set<int> all; NL f("F", cf), s("S", 1); static const char* KN[] = {"buffer", "queue", "priority_queue", "sequencer"};
@@ -189,7 +206,7 @@ static void s_cancel(long c) { int mode = c % 2; c /= 2; int at = c % 5; c /= 5;
 
 struct Block { const char* name; long count; void (*fn)(long); };
 static Block blocks[] = {{"chain", 4 * 3 * 2 * 3 * 2 * 2, s_chain}, {"buffered", 4 * 2 * 4 * 2 * 2, s_buffered}, {"fan", 3 * 3 * 2 * 2, s_fan}, {"limiter", 2 * 3 * 2 * 2 * 2, s_limiter},
-                         {"continue", 3 * 2 * 2, s_continue}, {"multi", 3 * 2 * 3 * 2, s_multi}, {"input", 4 * 2 * 2 * 2, s_input}, {"async", 3 * 2 * 2, s_async}, {"cancel", 2 * 5 * 2 * 2 * 2, s_cancel}};
+                         {"continue", 3 * 2 * 2, s_continue}, {"multi", 3 * 2 * 3 * 2, s_multi}, {"input", 4 * 2 * 2 * 2, s_input}, {"async", 3 * 2 * 2, s_async}, {"cancel", 2 * 5 * 2 * 2 * 2, s_cancel}, {"lwsink", 3 * 3 * 3 * 2 * 2 * 2, s_lwsink}};
 static const char* only = nullptr;
 static void scenario(long c) { for (auto& b : blocks) { if (only && strcmp(only, b.name)) continue; if (c < b.count) { b.fn(c); return; } c -= b.count; } }
 int main(int argc, char** argv) {
